@@ -28,6 +28,7 @@ shuffle: bool = True
 seed: Optional[int] = 11
 choices = ("sgd", "adam")
 sizes = [3, 1, 2]
+flags = (0, False, 1, 2)
 
 
 class Config(object):
@@ -125,7 +126,7 @@ class C14(Prop):
         if ev:
             # eval mode: top-level inputs only; mostly the iterable ones (the others are a recorded finding)
             for p in pairs:
-                p[0] = [r.choice(["choices", "sizes"] if r.random() < 0.8 else ["depth", "opt"])]
+                p[0] = [r.choice(["choices", "sizes", "flags"] if r.random() < 0.8 else ["depth", "opt"])]
             pairs = [p for p in pairs if kind_of(resolve(out_tree.body, p[1])[0][0]) != "arg"] or pairs[:1]
             wrap = None
         run.dist["pairs"][len(pairs)] += 1
@@ -151,7 +152,7 @@ class C14(Prop):
         try:
             ip, op = os.path.join(d, "input.py"), os.path.join(d, "output.py")
             outs = []
-            for src in (INPUT_SRC, INPUT_SRC.replace('choices = ("sgd", "adam")', 'choices = ("rmsprop",)').replace("sizes = [3, 1, 2]", "sizes = [7]")):
+            for src in (INPUT_SRC, INPUT_SRC.replace('choices = ("sgd", "adam")', 'choices = ("rmsprop",)').replace("sizes = [3, 1, 2]", "sizes = [7]").replace("flags = (0, False, 1, 2)", "flags = (9,)")):
                 with open(ip, "w") as f:
                     f.write(src)
                 with open(op, "w") as f:
@@ -281,7 +282,7 @@ class C14(Prop):
         if c["eval"] and cls is None and not fails:
             try:
                 first, second = self.run_twice_eval(c)
-                if "'rmsprop'" not in second and "Literal[7]" not in second:
+                if "'rmsprop'" not in second and "Literal[7]" not in second and "Literal[9]" not in second:
                     fails.append({"what": "a second call on the same input path does not see the edited input", "second": second[:600], "_class": None})
             except Exception as e:
                 fails.append({"what": "second call on the same input path raised", "exc": exc_kind(e), "_class": None})
@@ -359,7 +360,7 @@ def classify_case(c, in_tree, out_tree):
     """recorded findings of find_in_ast / RewriteAtQuery that reach sync_properties (see C15)"""
     from .c15 import classify as c15_classify
 
-    if c["eval"] and any(p[0][0] not in ("choices", "sizes") for p in c["pairs"]):
+    if c["eval"] and any(p[0][0] not in ("choices", "sizes", "flags") for p in c["pairs"]):
         return "C14-eval-of-a-scalar-or-string-value"
     if c["eval"] and any(resolve(out_tree.body, p[1]) and isinstance(resolve(out_tree.body, p[1])[0][0], ast.arg) for p in c["pairs"]):
         return "C14-eval-onto-a-function-argument-raises"
